@@ -19,7 +19,7 @@ ASSUMPTIONS = unitkit.UNITS_STUB_TEXT + [
     "array magnitudes are 2-element object arrays of proxies (class SymArr overrides astype(float)); np.max over such arrays forks on every comparison",
 ]
 OUTSIDE = ['arrays longer than 2 elements / multi-dimensional arrays', 'Decimal magnitudes beyond conversion and +/- (real Decimal refuses mixed float arithmetic in the other operators)', 'binary64 rounding', 'non-linear (temperature, logarithmic, reciprocal) conversions of uncertainties']
-BOUNDS = {'quick': {'exponents': '-3..3 and 1/2', 'unit pairs': 8}, 'thorough': {'exponents': '-6..6, 1/2, 3/2', 'unit pairs': 'every linear prefixed pair sample of 60'}}
+BOUNDS = {'quick': {'exponents': '-3..3 and 1/2', 'unit pairs': '18 (including nm/pm, ns/ps, eV/keV, fg/pg, ym/zm, Gpc/Mpc, Ym/Zm)', 'zero': 'values may be zero: divisions fork instead of being assumed non-zero'}, 'thorough': {'exponents': '-6..6, 1/2, 3/2', 'unit pairs': 'every linear prefixed pair sample of 60'}}
 
 PRE = "from scinumtools.units import Magnitude, Quantity\n"
 R4 = {'a': 'real', 'ea': 'real', 'b': 'real', 'eb': 'real'}
